@@ -395,6 +395,31 @@ def g_not(g):
     return ("not", g)
 
 
+def _is_count_key(k):
+    """Does the key denote a non-negative integer count: len(...) or a sum of 0/1-valued presence conditionals?"""
+    if not _is_polykey(k):
+        return False
+    p = poly_from_key(k)
+    if p.is_const():
+        return False
+    for mono, coef in p.terms.items():
+        if coef < 0:
+            return False
+        if not mono:
+            if coef != int(coef):
+                return False
+            continue
+        if len(mono) != 1 or mono[0][1] != 1:
+            return False
+        a = mono[0][0]
+        if a[0] == "call" and a[1] == "len":
+            continue
+        if a[0] == "cond" and all(_const_of_key(v) in (0, 1) for _, v in a[1]):
+            continue
+        return False
+    return True
+
+
 def g_cmp(op, a, b, keys=False):
     ka = a if keys else vkey(a)
     kb = b if keys else vkey(b)
@@ -406,6 +431,19 @@ def g_cmp(op, a, b, keys=False):
         return TRUE
     if ka == kb and op in ("!=", "<", ">", "is not"):
         return FALSE
+    if op in ("<", ">", "<=", ">=") and (pa is not None or pb is not None):
+        # a count (a length, a sum of 0/1 presence terms) against 0 or 1: `n > 0`, `n >= 1`, `n != 0` and the truth of
+        # the container are one test, as are `n <= 0`, `n < 1`, `n == 0` and `not container`
+        cnt, c, cop = (kb, pa, {"<": ">", ">": "<", "<=": ">=", ">=": "<="}[op]) if pa is not None else (ka, pb, op)
+        if _is_count_key(cnt):
+            if (cop == ">" and c == 0) or (cop == ">=" and c == 1):
+                return g_not(g_cmp("==", cnt, Poly.const(0).key(), keys=True))
+            if (cop == "<=" and c == 0) or (cop == "<" and c == 1):
+                return g_cmp("==", cnt, Poly.const(0).key(), keys=True)
+            if cop == ">=" and c <= 0:
+                return TRUE
+            if cop == "<" and c <= 0:
+                return FALSE
     if op in ("==", "is") and (ka == ("const", "None") or kb == ("const", "None") or key_atom(ka) == ("val", ("const", "None")) or key_atom(kb) == ("val", ("const", "None"))):
         # d.get(k) is None  is  k not in d  (for mappings that hold records, never None: the tables this code keeps)
         other = kb if (ka == ("const", "None") or key_atom(ka) == ("val", ("const", "None"))) else ka
@@ -418,6 +456,11 @@ def g_cmp(op, a, b, keys=False):
         return g_not(g_cmp("in", ka, kb, keys=True))
     if op == "in" and isinstance(kb, tuple) and kb and kb[0] == "list" and kb[1] and all(x == kb[1][0] for x in kb[1]):
         return g_cmp("==", ka, kb[1][0], keys=True)  # membership in [y, y, ...] is equality with y
+    if op == "in" and isinstance(kb, tuple) and kb and kb[0] in ("list", "tuple"):
+        els = kb[1:] if kb[0] == "tuple" else kb[1]
+        if 0 < len(els) <= 4 and all(isinstance(x, tuple) for x in els) and not any(x and x[0] == "star" for x in els) and not any(_is_polykey(x) and (key_atom(x) or ("",))[0] == "star" for x in els):
+            # membership in a short literal collection is the disjunction of the equalities
+            return g_or([g_cmp("==", ka, x, keys=True) for x in els])
     if op == "!=":
         return g_not(g_cmp("==", ka, kb, keys=True))
     if op == "is not":
@@ -1301,6 +1344,10 @@ class Frame:
     def unpack(self, v, n):
         if isinstance(v, (ATuple, AList)) and not getattr(v, "doms", None) and len(v.items) == n:
             return list(v.items)
+        if isinstance(v, Poly):
+            a = v.as_atom()
+            if a is not None and a[0] == "val" and isinstance(a[1], tuple) and a[1] and a[1][0] == "tuple" and len(a[1]) - 1 == n:
+                return [_value_of_key(x) for x in a[1][1:]]  # a concrete tuple that went through a conditional / a list
         k = vkey(v)
         return [Poly.atom(("sub", k, Poly.const(i).key())) for i in range(n)]
 
@@ -1419,6 +1466,25 @@ class Frame:
         base = self.eval(e.value, st)
         return self.attr_of(base, e.attr, e.value, e, st)
 
+    def _is_class_constant(self, attr):
+        """Is `attr` bound in a class body of the repository (and never assigned through an instance)?"""
+        cache = self.I.__dict__.setdefault("_classconsts", None)
+        if cache is None:
+            cache = set()
+            inst = set()
+            for ci in self.I.prog.classes.values():
+                for st_ in ci.node.body:
+                    if isinstance(st_, (ast.Assign, ast.AnnAssign)) and getattr(st_, "value", None) is not None:
+                        for t in (st_.targets if isinstance(st_, ast.Assign) else [st_.target]):
+                            if isinstance(t, ast.Name):
+                                cache.add(t.id)
+                for n in ast.walk(ci.node):
+                    if isinstance(n, ast.Attribute) and isinstance(n.ctx, ast.Store):
+                        inst.add(n.attr)
+            cache -= inst
+            self.I.__dict__["_classconsts"] = cache
+        return attr in cache
+
     def attr_of(self, base, attr, base_node, node, st):
         """Value of `base.attr` (also reached through getattr(base, "attr"))."""
         if isinstance(base, ARecord) and attr in base.names:
@@ -1441,6 +1507,11 @@ class Frame:
         slot = ("@attr", vkey(base), attr)
         if slot in st.env:
             return st.env[slot]
+        if isinstance(base, Poly):
+            na = base.as_atom()
+            if na is not None and na[0] == "mcall" and na[1] == "__new__" and len(na[3]) == 1 and na[3][0] == na[2] and not na[4] and self._is_class_constant(attr):
+                # an attribute the bare instance `cls.__new__(cls)` was never given is looked up on the class
+                return self.attr_of(_value_of_key(na[2]), attr, base_node, node, st)
         if ("@ver", vkey(base)) in st.env:
             return Poly.atom(("attr", st.env[("@ver", vkey(base))], attr))
         # property getter on self or on a class-typed symbol
